@@ -2,12 +2,12 @@ From TN Require Export Harness.HBase Sem.Fast Harness.H_C13.
 From TN Require Export Model.RoundReplay.
 From Coq Require Import QArith Qabs.
 (* Tensor.round_tt(eps, rmax, algorithm) with torch.linalg.qr and tn.truncated_svd replayed *)
-Record case := mkCase { c_t : tensor QO; c_eps2 : Q; c_qr : list answer; c_ts : list ts_answer; c_shape : list nat; c_dense : list Q }.
+Record case := mkCase { c_t : tensor QO; c_eps2 : Q; c_rmaxs : list nat; c_qr : list answer; c_ts : list ts_answer; c_shape : list nat; c_dense : list Q }.
 (* the dense results are compared relative to the largest entry: the implementation's round-off scales with it *)
 Definition maxabs (l : list Q) : Q := fold_right (fun x acc => if Qle_bool acc (Qabs x) then Qabs x else acc) 0 l.
 Definition cmp_scaled (scale : Q) (x y : Q) : bool := Qle_bool (Qabs (x - y)) ((1 # 100000) * (1 + scale)).
 Definition check (c : case) : bool :=
-  let s := round_tt (c_eps2 c) (mkSt (map of_mode (cp_to_tt (c_t c))) (c_qr c) true) (c_ts c) in
+  let s := round_tt (c_eps2 c) (c_rmaxs c) (mkSt (map of_mode (cp_to_tt (c_t c))) (c_qr c) true) (c_ts c) in
   let t' := to_tensor (s_modes (r_st s)) in
   r_ok s && s_ok (r_st s) && Nat.eqb (length (r_ts s)) 0 && Nat.eqb (length (s_ans (r_st s))) 0 &&
   shape_eqb (shape t') (c_shape c) && list_cmp (cmp_scaled (maxabs (c_dense c))) (dense_of (eval_l (sem t')) (shape t')) (c_dense c).
